@@ -27,6 +27,7 @@ MC_UserParams == <<
 >>
 MC_LockNames == {}
 MC_CallerIds == {}
+MC_Files == <<>>
 Dump == PrintT(ToJson([path |-> hist, op |-> lastOp', out |-> lastOut', sets |-> lastSets', post |-> Abs(obj'),
                        bytes |-> IF lastOp'.op = "Reload" THEN WriterModel(obj) ELSE <<>>]))
 =========================================================================
